@@ -195,7 +195,7 @@ CMR_ERROR CMRcomputeRepresentationMatrix(CMR* cmr, CMR_GRAPH* digraph, bool tern
     CMR_GRAPH_NODE u = CMRgraphEdgeU(digraph, forestArcs[i]);
     CMR_GRAPH_NODE v = CMRgraphEdgeV(digraph, forestArcs[i]);
     CMRdbgMsg(2, "Forest edge %d = {%d,%d}.\n", forestArcs[i], u, v);
-    if (nodeData[u].predecessor == v)
+    if (nodeData[u].predecessor == v && nodeData[u].rootEdge == forestArcs[i])
     {
       nodesRows[u] = numRows;
       nodesReversed[u] = nodeData[u].reversed ? -1 : 1;
@@ -204,7 +204,7 @@ CMR_ERROR CMRcomputeRepresentationMatrix(CMR* cmr, CMR_GRAPH* digraph, bool tern
       CMRdbgMsg(2, "Basic edge (%d,%d): %d is predecessor of %d; node %d is row %d; reversed = %s.\n", v, u, v, u, u,
         nodesRows[u], nodeData[u].reversed ? "true" : "false");
     }
-    else if (nodeData[v].predecessor == u)
+    else if (nodeData[v].predecessor == u && nodeData[v].rootEdge == forestArcs[i])
     {
       nodesRows[v] = numRows;
       nodesReversed[v] = nodeData[v].reversed ? -1 : 1;
